@@ -19,11 +19,13 @@ ASSUMPTIONS = ["UART: tuning word = t << 20 with a symbolic 12-bit t, in [2^30, 
                "SPI: software holds `length` (1..data_width) while a transfer is busy; divider 2..4 held; the slave changes MISO only right after a falling SCK pad edge",
                "I2C: one command bit at a time, issued as a one-cycle pulse when the machine reports idle (what the I2CMaster wrapper and software do); clock divider load 0..1",
                "Timer/Watchdog driven at the level of their CSR storage/strobe signals (CSR bank semantics are C12)",
-               "UART RX tolerance sweep, SPISlave and timeline() are not covered in this round (stated in OUTSIDE)"]
-BOUNDS = {"quick": "UART TX: inductive step over all 32-bit tuning words (unbounded time) + BMC K=26; SPI K=30 (length<=4, divider<=3); I2C K=66; counters: one step from arbitrary state + one-shot BMC K=12",
-          "thorough": "UART TX: inductive step + BMC K=38; SPI K=44 (length<=8, divider<=4); I2C K=86; counters as quick"}
-OUTSIDE = "UART RX frame recovery under +-2% rate mismatch, SPISlave, timeline(); electrical timing; I2C clock stretching and multi-master"
-FUNCS = ["litex.soc.cores.uart.RS232ClkPhaseAccum", "litex.soc.cores.uart.RS232PHYTX", "litex.soc.cores.spi.spi_master.SPIMaster", "litex.soc.cores.i2c.I2CClockGen",
+               "UART RX: the real RS232PHYRX at 16 cycles/bit in front of an ideal transmitter (independent 12-bit NCO) whose rate is a concrete value within +-2% of the receiver's (251..261 / 256), "
+               "with symbolic byte, symbolic start instant, symbolic sub-cycle start phase and a metastable first synchroniser flop (old/new level whenever the pad changes at a sampling edge)",
+               "SPISlave and timeline() are not covered (stated in OUTSIDE)"]
+BOUNDS = {"quick": "UART RX: BMC K=182 (one frame at 16 cycles/bit), transmitter rate -2% and +2%; UART TX: inductive step over all 32-bit tuning words (unbounded time) + BMC K=26; SPI K=30 (length<=4, divider<=3); I2C K=66; counters: one step from arbitrary state + one-shot BMC K=12",
+          "thorough": "UART RX: one frame at 7 transmitter rates in +-2%, two back-to-back frames (K=350) at the extremes; UART TX: inductive step + BMC K=38; SPI K=44 (length<=8, divider<=4); I2C K=86; counters as quick"}
+OUTSIDE = "UART RX at bit periods other than 16 cycles and transmitter rates between the enumerated ones; SPISlave, timeline(); electrical timing; I2C clock stretching and multi-master"
+FUNCS = ["litex.soc.cores.uart.RS232ClkPhaseAccum", "litex.soc.cores.uart.RS232PHYTX", "litex.soc.cores.uart.RS232PHYRX", "litex.soc.cores.spi.spi_master.SPIMaster", "litex.soc.cores.i2c.I2CClockGen",
          "litex.soc.cores.i2c.I2CMasterMachine", "litex.soc.cores.timer.Timer", "litex.soc.cores.watchdog.Watchdog", "litex.gen.genlib.misc.WaitTimer", "litex.soc.cores.pwm.PWM"]
 
 
@@ -95,6 +97,82 @@ class UartTx(Mon):
             self.w = Signal(name_override="w_last_slot_tick")
             self.comb += self.w.eq(busy & tick & (slot == 9) & sink.ready)
         self.showl = [sink.valid, sink.ready, sink.data, pads.tx, slot, busy]
+
+
+class UartRx(Mon):
+    """the real RS232PHYRX in front of an IDEAL transmitter: an independent numerically controlled oscillator (12-bit phase accumulator,
+    symbolic tuning word within +-2% of the receiver's rate, symbolic start instant and start phase) that plays start, 8 data bits LSB
+    first and stop on pads.rx.  The pad is asynchronous to the receiver: the first flop of the input synchroniser resolves to the old
+    or to the new level whenever the pad changes at a sampling edge (meta=True)."""
+
+    def __init__(self, rx_cycles_per_bit=16, frames=1, tol=5, tw_tx=None):
+        from litex.soc.cores import uart
+        pads = uart.UARTPads()
+        assert rx_cycles_per_bit & (rx_cycles_per_bit - 1) == 0
+        tw_rx = Signal(32, name_override="rx_tuning_word", reset=2**32 // rx_cycles_per_bit)
+        self.submodules.dut = dut = uart.RS232PHYRX(pads, tw_rx)
+        src = dut.source
+        # ideal transmitter: period = 4096 / tw_tx * (rx_cycles_per_bit / 16) ... keep it simple: accumulator of log2(P)+8 bits, nominal tuning word 256
+        AW = 8 + (rx_cycles_per_bit.bit_length() - 1)
+        self.tw_tx = Signal(9, name_override="tx_tuning_word")          # rigid; nominal 256
+        self.byte = Signal(8, name_override="tx_byte")                  # rigid
+        self.go = Signal(name_override="tx_go")                         # free: the instant the frame starts
+        self.ph0 = Signal(AW, name_override="tx_start_phase")           # free: sub-cycle phase of the start edge
+        self.free = [self.go, self.ph0]
+        busy = self.reg(1, "tx_busy"); acc = self.reg(AW, "tx_acc"); slot = self.reg(4, "tx_slot"); nframes = self.reg(2, "tx_frames")
+        line = self.reg(1, "tx_line", reset=1)
+        sN = Signal(AW + 1)
+        self.comb += sN.eq(acc + self.tw_tx)
+        frame = Cat(Constant(0, 1), self.byte, Constant(1, 1))
+        self.sync += [
+            If(~busy,
+               line.eq(1),
+               If(self.go & (nframes < frames), busy.eq(1), acc.eq(self.ph0), slot.eq(0), line.eq(0))
+               ).Else(
+                acc.eq(sN[:AW]),
+                If(sN[AW],
+                   If(slot == 9, busy.eq(0), line.eq(1), nframes.eq(nframes + 1)).Else(slot.eq(slot + 1), line.eq(Array([frame[i] for i in range(10)])[slot + 1])))),
+        ]
+        self.comb += pads.rx.eq(line)
+        self.asm = Signal(name_override="asm_tx_rate_within_tolerance")
+        # the start phase is the sub-cycle position of the start edge: less than one accumulator step, so that the start bit lasts a full period
+        if tw_tx is None:
+            self.comb += self.asm.eq((self.tw_tx >= 256 - tol) & (self.tw_tx <= 256 + tol) & (self.ph0 < self.tw_tx))
+        else:
+            self.comb += self.asm.eq((self.tw_tx == tw_tx) & (self.ph0 < self.tw_tx))
+        # obligations
+        got = self.reg(2, "bytes_received")
+        self.sync += If(src.valid & (got != 3), got.eq(got + 1))
+        sent_start = self.reg(2, "frames_started")
+        self.sync += If(~busy & self.go & (nframes < frames), sent_start.eq(sent_start + 1))
+        # a byte is delivered only for a frame that was started, carries its data, at most one per frame
+        self.bad_data = Signal(name_override="bad_received_byte_differs")
+        self.comb += self.bad_data.eq(src.valid & (src.data != self.byte))
+        self.bad_spurious = Signal(name_override="bad_spurious_byte")
+        self.comb += self.bad_spurious.eq(src.valid & (got >= sent_start))
+        # every frame is delivered at the latest a few cycles after its stop bit has ended (tx idle again for 4 cycles)
+        idle_for = self.reg(3, "tx_idle_for")
+        self.sync += If(busy, idle_for.eq(0)).Elif(idle_for != 7, idle_for.eq(idle_for + 1))
+        self.bad_lost = Signal(name_override="bad_frame_not_delivered")
+        self.comb += self.bad_lost.eq(~busy & (idle_for >= 4) & (got + src.valid < nframes))
+        # the receiver is back in IDLE by then (ready for the next start edge)
+        self.bad_stuck = Signal(name_override="bad_receiver_not_idle_after_frame")
+        self.comb += self.bad_stuck.eq(~busy & (idle_for >= 4) & ~dut.fsm.ongoing("IDLE"))
+        self.w = Signal(name_override="w_all_frames_received")
+        self.comb += self.w.eq((got == frames) & (nframes == frames))
+        self.showl = [pads.rx, src.valid, src.data, slot, busy, got]
+
+
+def build_uart_rx(P, frames, K, tol=5, tw_tx=None, part=None):
+    m = UartRx(P, frames, tol, tw_tx)
+    bads = dict(received_byte_equals_sent_byte=m.bad_data, no_spurious_or_duplicate_byte=m.bad_spurious, frame_delivered_by_end_of_stop_bit=m.bad_lost,
+                receiver_idle_after_frame=m.bad_stuck)
+    if part is not None:          # one obligation per job: the four K=180 queries then run in parallel
+        bads = {k: v for i, (k, v) in enumerate(bads.items()) if i == part}
+    return H("uart_rx_p%d_f%d%s%s" % (P, frames, "" if tw_tx is None else "_tx%d" % tw_tx, "" if part is None else "_ob%d" % part), m, m.free, rigid=[m.tw_tx, m.byte], assume=[m.asm],
+             bad=bads,
+             witness=dict(all_frames_received=m.w), K=K, meta=True, funcs=FUNCS + ["litex.soc.cores.uart.RS232PHYRX"],
+             cfg=dict(rx_cycles_per_bit=P, frames=frames, tx_rate_tolerance="+-%d/256" % tol), show=m.showl, vcycles=40, timeout_s=3300)
 
 
 def build_uart_tx(lo, hi, K):
@@ -432,7 +510,15 @@ def build_pwm_step():
 
 def jobs(tier):
     T = tier == "thorough"
-    js = [Job("uart_tx", build_uart_tx, dict(lo=2**30, hi=2**31, K=38 if T else 26), cost=90 if T else 20, timeout_s=3400),
+    js = []
+    for tw in ((251, 261) if not T else (251, 252, 254, 256, 258, 260, 261)):
+        for part in range(4):
+            js.append(Job("uart_rx_p16_f1_tx%d_ob%d" % (tw, part), build_uart_rx, dict(P=16, frames=1, K=182, tw_tx=tw, part=part), cost=200, timeout_s=3400))
+    if T:
+        for tw in (251, 261):
+            for part in range(4):
+                js.append(Job("uart_rx_p16_f2_tx%d_ob%d" % (tw, part), build_uart_rx, dict(P=16, frames=2, K=350, tw_tx=tw, part=part), cost=900, timeout_s=7000))
+    js += [Job("uart_tx", build_uart_tx, dict(lo=2**30, hi=2**31, K=38 if T else 26), cost=90 if T else 20, timeout_s=3400),
           Job("uart_tx_inductive_step", build_uart_tx_step, {}, cost=5), Job("uart_tx_invariant_initial", build_uart_tx_init, {}, cost=1),
           Job("spi_master_raw", build_spi, dict(mode="raw", dw=8, maxlen=8 if T else 4, maxdiv=4 if T else 3, K=44 if T else 30), cost=50 if T else 20, timeout_s=3400),
           Job("spi_master_aligned", build_spi, dict(mode="aligned", dw=8, maxlen=8 if T else 4, maxdiv=4 if T else 3, K=44 if T else 30), cost=50 if T else 20, timeout_s=3400),
